@@ -86,8 +86,8 @@ func runC16(c *Ctx) {
 		})
 		c.Require("C16.R1 snapshot-protocol", "store restore ⇒ event restore", p.InstrPos(evRest), "after the store was restored the command's revertible events are dropped too", path == nil, pathStr(path))
 		// same snapshot id
-		idArg := stripConv(stRest.Common().Args[1])
-		delArg := stripConv(stDel.Common().Args[1])
+		idArg := stripConv(ArgK(stRest, 1))
+		delArg := stripConv(ArgK(stDel, 1))
 		c.Require("C16.R1 snapshot-protocol", "snapshot id", p.InstrPos(stRest), "RestoreSnapshot and DeleteSnapshot use the id returned by Snapshot()", idArg == stSnap.Value() && delArg == stSnap.Value(), "")
 		// DeleteSnapshot on all non-invalid paths
 		path = reachesReturnAvoiding(cmd, func(in ssa.Instruction) bool { return in == stDel.(ssa.Instruction) }, func(r *ssa.Return) bool {
@@ -98,7 +98,7 @@ func runC16(c *Ctx) {
 		// standard event
 		var std ssa.CallInstruction
 		for _, s := range CallsIn(exec, "(*statemachine.EventLogger).Add") {
-			if strings.Contains(T(s.Call.Common().Args[3]).String(), "NewStandardTransactionEventData") {
+			if strings.Contains(T(ArgK(s.Call, 3)).String(), "NewStandardTransactionEventData") {
 				std = s.Call
 			}
 		}
@@ -113,8 +113,8 @@ func runC16(c *Ctx) {
 			c.Require("C16.R1 standard-event", "standard event after the event restore", p.InstrPos(std), "the standard event is added after the revertible events were dropped", !reachable(std.Block(), evRest.Block()) || std.Block() == evRest.Block() && instrIndex(evRest) < instrIndex(std), "")
 			// success flag: φ(true, false) with false from the failure edge
 			var flag ssa.Value
-			if cl, ok := stripConv(std.Common().Args[3]).(*ssa.Call); ok {
-				flag = cl.Common().Args[0]
+			if cl, ok := stripConv(ArgK(std, 3)).(*ssa.Call); ok {
+				flag = ArgK(cl, 0)
 			}
 			okFlag := false
 			detail := ""
@@ -296,10 +296,10 @@ func runC16(c *Ctx) {
 				if CalleeName(call.Common()) != "builtin:append" {
 					continue
 				}
-				if !strings.HasSuffix(T(call.Common().Args[0]).String(), ".values") {
+				if !strings.HasSuffix(T(ArgK(call, 0)).String(), ".values") {
 					continue
 				}
-				l := T(call.Common().Args[1])
+				l := T(ArgK(call, 1))
 				if l.Op == "list" && len(l.Args) == 1 {
 					return l.Args[0]
 				}
@@ -332,16 +332,16 @@ func runC16(c *Ctx) {
 	{
 		markerKey := func(fn *ssa.Function) (string, bool) {
 			for _, call := range AllCalls(fn) {
-				if CalleeName(call.Common()) == "db/batchdb.NewWithPrefix" && strings.Contains(T(call.Common().Args[2]).String(), "StateDBPrefixTreeState") {
+				if CalleeName(call.Common()) == "db/batchdb.NewWithPrefix" && strings.Contains(T(ArgK(call, 2)).String(), "StateDBPrefixTreeState") {
 					// the Set on it
 					for _, r := range *call.Value().Referrers() {
 						if cl, ok := r.(*ssa.Call); ok && CalleeName(cl.Common()) == "(*db/batchdb.Database).Set" {
-							k := T(cl.Common().Args[1])
+							k := T(ArgK(cl, 1))
 							kk := k.String()
 							if kk == "*framework.emptyBytes" || kk == "[]" {
 								kk = "<empty>"
 							}
-							return kk, stripConv(call.Common().Args[1]) != nil
+							return kk, stripConv(ArgK(call, 1)) != nil
 						}
 					}
 				}
@@ -382,7 +382,7 @@ func runC16(c *Ctx) {
 			}
 		}
 		for _, s := range CallsIn(revert, "(*db.DB).Get") {
-			getKey = strings.ReplaceAll(T(s.Call.Common().Args[1]).String(), "p1", "H")
+			getKey = strings.ReplaceAll(T(ArgK(s.Call, 1)).String(), "p1", "H")
 		}
 		c.Require("C16.R4 revert-reads-commit-diff", "Commit Set / revert Get", p.Pos(revert.Pos()), "revert reads the diff under the key family Commit wrote it (StateDBPrefixDiff ‖ height)", setKey != "" && setKey == getKey, setKey+" vs "+getKey)
 		// dry run writes nothing
